@@ -287,7 +287,13 @@ impl Report {
                 known_hits.push(json!({"id": k.id, "cause": cause, "witnesses": count, "smallest": v.what}));
             } else {
                 unlisted += 1;
-                let slug = if cfg!(debug_assertions) { slugify(cause) } else { format!("release-{}", slugify(cause)) };
+                let slug = if !cfg!(debug_assertions) {
+                    format!("release-{}", slugify(cause))
+                } else if std::env::var_os("CLAPMC_EVIDENCE_MERGE_KEY").is_some() {
+                    format!("default-features-{}", slugify(cause))
+                } else {
+                    slugify(cause)
+                };
                 let dir = root.join("replays").join(&self.prop);
                 let _ = std::fs::create_dir_all(&dir);
                 let path = dir.join(format!("{}.json", slug));
@@ -391,22 +397,31 @@ pub fn release_replay() -> bool {
     std::env::var_os("CLAPMC_RELEASE_REPLAY").is_some()
 }
 
+/// Key under `coverage` for a secondary pass whose numbers are merged into the primary pass's
+/// evidence instead of replacing it (release-profile replay, default-feature pass).
+fn merge_key() -> Option<String> {
+    if release_replay() {
+        return Some("release_profile_replay".into());
+    }
+    std::env::var("CLAPMC_EVIDENCE_MERGE_KEY").ok()
+}
+
 /// Write the evidence file. In the release-profile pass the debug pass's evidence is kept and the
 /// pass's own numbers are merged in under `coverage.release_profile_replay`.
 pub fn write_evidence(root: &std::path::Path, prop: &str, ev: Value) -> Result<(), String> {
     let evdir = root.join("evidence");
     let _ = std::fs::create_dir_all(&evdir);
     let evpath = evdir.join(format!("{}.json", prop));
-    let out = if release_replay() {
+    let out = if let Some(key) = merge_key() {
         let mut base: Value = std::fs::read_to_string(&evpath).ok().and_then(|t| serde_json::from_str(&t).ok()).unwrap_or_else(|| ev.clone());
         let cov = &ev["coverage"];
         let summary = json!({
-            "profile": "opt-level 2, debug-assertions off, overflow-checks off; explores exactly the configurations the debug pass found valid",
+            "pass": if release_replay() { "release profile: opt-level 2, debug-assertions off, overflow-checks off; explores exactly the configurations the debug pass found valid".to_string() } else { std::env::var("CLAPMC_EVIDENCE_MERGE_NOTE").unwrap_or_default() },
             "evaluations": cov["evaluations"], "states": cov["states"], "transitions": cov["transitions"],
             "outcome_histogram": cov["outcome_histogram"], "unlisted_violations": cov["unlisted_violations"],
             "known_findings_seen": cov["known_findings_seen"], "exhaustive": cov["exhaustive"], "wall_s": ev["wall_s"],
         });
-        base["coverage"]["release_profile_replay"] = summary;
+        base["coverage"][key.as_str()] = summary;
         let v = base["violations"].as_u64().unwrap_or(0) + ev["violations"].as_u64().unwrap_or(0);
         base["violations"] = json!(v);
         let w = base["wall_s"].as_f64().unwrap_or(0.0) + ev["wall_s"].as_f64().unwrap_or(0.0);
